@@ -87,3 +87,41 @@ def id_lookups_read_the_id_map_and_change_nothing(c: Cache, oid: str, other: str
     if node is not None:
         check(t == node.type, "the type is the node's type")
     check(id_map(c, other) is before and id_map(c, oid) is bound, "lookups change no binding")
+
+
+@lemma(props=["C19"], configs="none", raises=["ValueError"],
+       stubs={"cloudsync.hierarchical_cache:HierarchicalCache._get_node": {"results": ["node?"]},
+              "cloudsync.hierarchical_cache:HierarchicalCache._delete": {"results": ["None"]},
+              "cloudsync.hierarchical_cache:HierarchicalCache._HierarchicalCache__make_node": {"results": ["node"]},
+              "cloudsync.hierarchical_cache:HierarchicalCache._set_oid": {"results": ["None"]},
+              "cloudsync.hierarchical_cache:HierarchicalCache.set_metadata": {"results": ["None"]}})
+def update_replaces_a_node_whose_type_changed(c: Cache, path: str, oid: opt_str, keep: bool):
+    """L19.5: update of a path (_update): the node is looked up once, by that path; a node of another type is removed
+    (one _delete of exactly that node) *before* a new node of the requested type is made at the path with the given id,
+    which is what is returned; a missing node is made the same way without any removal; a node of the requested type is
+    kept -- nothing is removed or made -- and is given the id (through _set_oid, which evicts a previous holder) exactly
+    when an id was passed"""
+    otype = FILE
+    r = c._update(path, otype, oid, None, keep)
+    g = calls("_get_node")
+    d = calls("_delete")
+    m = calls("_HierarchicalCache__make_node")
+    so = calls("_set_oid")
+    check(len(g) >= 1 and g[0].kw_path == path, "the node is looked up by the path given")
+    found = g[0].result
+    if found is None or found.type != otype:
+        check(len(m) == 1 and m[0].kw_otype == otype and m[0].kw_path == path and m[0].kw_oid is oid, "a new node of the requested type is made at the path with the id given")
+        check(r is m[0].result, "and that node is returned")
+        check(len(so) == 0, "no separate id assignment")
+        if found is None:
+            check(len(d) == 0, "nothing to remove")
+        else:
+            check(len(d) == 1 and d[0].kw_remove_node is found, "the node of the other type is removed, exactly that one")
+            order = [x for x in effect_names() if x in ("_delete", "_HierarchicalCache__make_node")]
+            check(order == ["_delete", "_HierarchicalCache__make_node"], "removed before the new node is made")
+    else:
+        check(len(d) == 0 and len(m) == 0, "a node of the requested type is kept: nothing removed, nothing made")
+        check(r is found, "the node found is returned")
+        check(iff(len(so) == 1, truthy(oid)), "the id is assigned exactly when one was passed")
+        if truthy(oid):
+            check(so[0].args[0] is found and so[0].args[1] == oid, "to that node, that id")
